@@ -4,6 +4,7 @@ From HTA.lib Require Import Base Cells Intervals Sweep.
 From HTA.model Require Import C04_Model C07_Model C05_Model.
 From HTA.gen Require Import KernelRules_gen.
 From HTA.proof Require Import KernelRulesTie C04_Proofs C05_Proofs.
+From HTA.proof Require Import Scale C05_Scale.
 Open Scope list_scope.
 Open Scope Z_scope.
 
@@ -81,3 +82,10 @@ Theorem C05_kernel_types_follow_source : forall n,
   ktype_code (get_kernel_type n) = kernel_type_gen (is_comm_kernel n) (is_memory_kernel n) (is_compute_kernel n).
 Proof. exact kernel_type_is_generated. Qed.
 Print Assumptions C05_kernel_types_follow_source.
+
+(* resolution independence of the kernel-type table: times multiplied by k > 0 multiply every combination's time by k (the
+   percentages are unchanged); this is the statement the whole-microsecond truncation fixed in 41c2c9e violated *)
+Theorem C05_types_resolution_independent : forall k mem l, 0 < k ->
+  model_types mem (scale_evs k l) = map (Z.mul k) (model_types mem l).
+Proof. exact C05_types_scale. Qed.
+Print Assumptions C05_types_resolution_independent.
